@@ -53,8 +53,8 @@ func rootFieldOf(v ssa.Value, typ string) bool {
 func c13(r *core.Run) {
 	p := r.P
 	defer c13Extra(r, hashPkg)
-	r.Explanation = "Decides: the ring state (keys, ring, nodes) is touched only under the hash's lock (writes under the write lock); AddWithReplicas removes the node first, caps the replica count, sorts the key slice after the last append; AddWithWeight ≡ replicas·weight/100; add and remove hash the same virtual-node expression; Get mutates nothing, calls nothing nondeterministic, reports absence only for an empty ring or an empty slot and wraps its index modulo len(keys); cache.New and kv.NewStore add nodes with the configured weight; every ring lookup in lib/store/kv and lib/store/cache (directly or through a function that returns the looked-up node, kvStore.getRedis) is made with the function's own key parameter unaltered, such a function returns exactly the looked-up node and reports absence only when the ring did, and a node is called with / keys are filed under it only for the very key it was looked up for."
-	r.NotDecided = "minimal disruption and proportional balance (properties of hash values over key populations); what a callback does with a looked-up node it is handed (cluster.withNode(key, fn) style) is only decided on the inlined program variants; calls on a node with a []string that is not built on the spot."
+	r.Explanation = "Decides: the ring state (keys, ring, nodes) is touched only under the hash's lock (writes under the write lock); AddWithReplicas removes the node first, caps the replica count, sorts the key slice after the last append; AddWithWeight ≡ replicas·weight/100; add and remove hash the same virtual-node expression; Remove, which tries all h.replicas replica names, deletes a position from keys exactly where the slot filter reported that it dropped the node's own ring entry (the report being nonzero only behind the repr-equality test); Get mutates nothing, calls nothing nondeterministic, reports absence only for an empty ring or an empty slot and wraps its index modulo len(keys); cache.New and kv.NewStore add nodes with the configured weight; every ring lookup in lib/store/kv and lib/store/cache (directly or through a function that returns the looked-up node, kvStore.getRedis) is made with the function's own key parameter unaltered, such a function returns exactly the looked-up node and reports absence only when the ring did, and a node is called with / keys are filed under it only for the very key it was looked up for."
+	r.NotDecided = "minimal disruption and proportional balance (properties of hash values over key populations); how many keys leave per dropped ring entry and that the deleted index is the searched one (D6/K2 decides whether, not how many – positions shared by two virtual nodes are outside the property); what a callback does with a looked-up node it is handed (cluster.withNode(key, fn) style) is only decided on the inlined program variants; calls on a node with a []string that is not built on the spot."
 
 	add := p.Func(hashPkg, "ConsistentHash", "AddWithReplicas")
 	rem := p.Func(hashPkg, "ConsistentHash", "Remove")
@@ -554,49 +554,10 @@ func c13(r *core.Run) {
 		}
 	})
 
-	r.Check("D6/K2/remove-drops-key-exactly", "Remove deletes a virtual node's key from keys whenever the search found it (index inside keys and keys[index] == hash), so no key is left without a ring entry", func(o *core.O) {
+	r.Check("D6/K2/remove-drops-key-exactly", "Remove tries all h.replicas replica names of the node, so it deletes a position from keys if and only if the node's own entry was dropped from the ring slot at that position: the delete of keys[index] is reachable only on the outcome 'the slot filter (removeRingNode) dropped an entry of this node' for the same hash and only when keys[index] == hash, and on that outcome it is not skipped (a replica name the node never owned can be another node's virtual node – \"node1\"+\"10\" == \"node11\"+\"0\" – whose position would leave keys while the ring still holds it: keys of other nodes move and Get can divide by len(keys) == 0; a kept key without ring entry makes Get report absence)", func(o *core.O) {
 		if !o.Need(rem != nil, "ConsistentHash.Remove") {
 			return
 		}
-		isSearch := c13IsSearch
-		lenKeys := core.IsLenOf(core.FieldLoad("ConsistentHash.keys"))
-		inside := core.AnyOf(core.Cmp(token.LSS, isSearch, lenKeys), core.Cmp(token.NEQ, isSearch, lenKeys))
-		isHashVal := func(v ssa.Value) bool {
-			v = core.Forward(v)
-			c, ok := v.(*ssa.Call)
-			return ok && isHashCall(c)
-		}
-		found := core.Cmp(token.EQL, func(v ssa.Value) bool {
-			u, ok := v.(*ssa.UnOp)
-			if !ok || u.Op != token.MUL {
-				return false
-			}
-			ia, ok := u.X.(*ssa.IndexAddr)
-			return ok && core.IsFieldLoad(ia.X, "ConsistentHash.keys") && isSearch(ia.Index)
-		}, isHashVal)
-		stores := core.Instrs(rem, core.IsStoreToField("ConsistentHash.keys"))
-		o.Site(len(stores), core.FuncName(rem))
-		if len(stores) == 0 {
-			o.Fail(p.Pos(rem.Pos()), "Remove never deletes from keys")
-			return
-		}
-		if core.EdgeCount(rem, inside) == 0 {
-			o.Fail(p.Pos(rem.Pos()), "the search result is not compared with len(keys) itself (a found key at the end of the ring would be kept, or the index could be out of range)")
-		}
-		if core.EdgeCount(rem, found) == 0 {
-			o.Fail(p.Pos(rem.Pos()), "keys[index] is not compared with the virtual node's hash")
-		}
-		isStore := core.IsStoreToField("ConsistentHash.keys")
-		if w := core.Requires(rem, isStore, found); w != nil {
-			o.Fail(p.InstrPos(w), "a key is deleted although it is not the virtual node's hash")
-		}
-		// once found, the key must be deleted before the ring entry is dropped
-		fe, _ := core.EdgesOf(rem, found)
-		isRing := core.CallMethod("hash.ConsistentHash", "removeRingNode")
-		for _, e := range fe {
-			if w, ok := core.Reach(core.Q{From: []core.At{core.Head(e.To)}, Target: isRing, Blocked: isStore}); ok {
-				o.Fail(p.InstrPos(w), "the ring entry is dropped although the found key was not deleted from keys")
-			}
-		}
+		c13RemoveDropsKey(r, o, rem, isHashCall)
 	})
 }
